@@ -124,7 +124,7 @@ func (c *RollingCounter) incBucketValue(v int) {
 
 // Returns the number in the moving window bucket that this slot occupies.
 func (c *RollingCounter) getBucket(t time.Time) int {
-	return int(t.Truncate(c.resolution).Unix() % int64(len(c.values)))
+	return int((t.Truncate(c.resolution).UnixNano() / int64(c.resolution)) % int64(len(c.values)))
 }
 
 // Reset buckets that were not updated.
